@@ -8,7 +8,7 @@
    coq/Lockset.v  one reader / writer lock and the plain accesses to the locations it guards;
                   the access steps are enabled only under the lock discipline. *)
 From Coq Require Import List NArith Arith Bool.
-From VQ Require Import HB HBProofs Lockset LocksetProofs.
+From VQ Require Import HB HBProofs Lockset LocksetProofs LockHB.
 Import ListNotations.
 
 (* The detector is exact: it accepts an execution iff no two conflicting plain accesses by
@@ -41,6 +41,22 @@ Theorem C19_discipline_orders_conflicting_accesses :
 Proof. exact conflicting_accesses_ordered_by_lock. Qed.
 Print Assumptions C19_discipline_orders_conflicting_accesses.
 
+(* The two models joined. [embed] reads a lock trace as an execution of HB.v with the Go memory
+   model's rules for sync.RWMutex (Lock = acquire W, acquire R; Unlock = release W; RLock =
+   acquire W; RUnlock = release R — so RUnlock does not order a later RLock). Every trace the
+   discipline admits is then race-free in the happens-before sense, and the detector accepts it:
+   for a location whose accesses follow the discipline, NO schedule of those lock operations
+   and accesses — of any length, with any number of threads — is a racy execution. *)
+Theorem C19_discipline_implies_race_freedom :
+  forall es s, lkrun lkinit es = Some s -> race_free (embed es).
+Proof. exact discipline_implies_race_free. Qed.
+Print Assumptions C19_discipline_implies_race_freedom.
+
+Theorem C19_discipline_accepted_by_the_detector :
+  forall es s, lkrun lkinit es = Some s -> race_check (embed es) = None.
+Proof. exact discipline_accepted_by_detector. Qed.
+Print Assumptions C19_discipline_accepted_by_the_detector.
+
 (* Under the discipline no two threads are ever both about to perform conflicting accesses. *)
 Theorem C19_no_adjacent_conflict :
   forall s t1 t2, LkReachable s ->
@@ -59,6 +75,11 @@ Example C19_example_locked :
   race_check [mkH 0 (HSync (Some 1) None); mkH 0 (HAcc 7 true); mkH 0 (HSync None (Some 1));
               mkH 1 (HSync (Some 1) None); mkH 1 (HAcc 7 false); mkH 1 (HSync None (Some 1))]%N = None.
 Proof. vm_compute. reflexivity. Qed.
+
+Example C19_example_embedding :
+  race_check (embed [LRLock 1; LRLock 2; LRead 1; LRead 2; LRUnlock 1; LRUnlock 2; LLock 3; LWrite 3; LUnlock 3; LRLock 1; LRead 1]) = None
+  /\ race_check (embed [LRLock 1; LRead 1; LRUnlock 1] ++ [mkH 2 (HAcc 0 true)])%N = Some (1, 3)%N.
+Proof. vm_compute. split; reflexivity. Qed.
 
 Example C19_example_discipline :
   lkrun lkinit [LLock 1; LWrite 1; LUnlock 1; LRLock 2; LRLock 3; LRead 2; LRead 3; LRUnlock 2; LRUnlock 3; LLock 1; LWrite 1] <> None
